@@ -138,6 +138,7 @@ def quantile(array, quant, epsilon=1.0, bounds=None, axis=None, keepdims=False, 
 
     # Todo: Need to find a way to do this in a differentially private way, see GH 80
     if np.isnan(interval_sizes).any():
+        accountant.spend(epsilon, 0)  # the query is answered (it reveals that the data contain NaN), so it is charged
         return np.nan
 
     mech = Exponential(epsilon=epsilon, sensitivity=1, utility=list(-np.abs(np.arange(0, k + 1) - quant * k)),
